@@ -473,3 +473,5 @@ enum Success {
     SentIdentifyPush(Info),
     ReceivedIdentifyPush(PushInfo),
 }
+
+#[cfg(libp2p_verif)] #[path = "verif_c46.rs"] pub mod verif_c46;
